@@ -10,6 +10,7 @@ Go ↔ Lean
 Go maps are association lists with `Routing.ainsert` (assignment replaces); error values are Kafka codes (0 = nil).
 -/
 import KafkaVerif.Model.Routing
+import KafkaVerif.Gen.Mappings
 
 namespace KV.Mappings
 open KV.Routing (ainsert lookupD MResponse MBroker MTopic MPartition)
@@ -47,10 +48,13 @@ structure UOFResponse where
   error : Int
   deriving DecidableEq, Repr, Inhabited
 
-/-- request side: `nil` topics (all topics of the group) when the user's map is empty; the user's map is listed
-in some order (Go map iteration) — `topics` is that listing -/
+/-- request side: the user's map is listed in some order (Go map iteration) — `topics` is that listing; when it is
+empty the slice handed to the protocol request keeps its initial value, which the source declares nil
+(`Gen.Mappings.offsetFetchTopicsStartNil`, regenerated): `none` = NULL array = all topics of the group, `some []`
+= an empty array = no topic -/
 def offsetFetchRequest (group : String) (topics : List (String × List Int)) : String × Option (List (String × List Int)) :=
-  (group, if topics.length > 0 then some (topics.map fun (t, ps) => (t, ps.map id)) else none)
+  (group, if topics.length > 0 then some (topics.map fun (t, ps) => (t, ps.map id))
+          else if KV.Gen.Mappings.offsetFetchTopicsStartNil then none else some [])
 
 def convOF (p : OFPart) : UOFPart := ⟨p.index, p.offset, p.metadata, p.error⟩
 
@@ -130,6 +134,14 @@ def convBroker (b : MBroker) : UBroker := ⟨b.nodeID, b.host, b.port, b.rack⟩
 def brokerMap (bs : List MBroker) : List (Int × UBroker) :=
   goMap (bs.map fun b => (b.nodeID, convBroker b))
 
+/-- conn.go makeBrokers: an id without a listed broker is reported as a placeholder carrying the id -/
+def makeBrokers (bm : List (Int × UBroker)) (ids : List Int) : List UBroker :=
+  ids.map fun id => match bm.lookup id with | some b => b | none => { UBroker.zero with id := id }
+
+/-- one id through the same placeholder rule (`makeBrokers(brokers, id)[0]`) -/
+def brokerOrPlaceholder (bm : List (Int × UBroker)) (id : Int) : UBroker :=
+  match bm.lookup id with | some b => b | none => { UBroker.zero with id := id }
+
 /-- (*Client).Metadata -/
 def clientMetadata (res : MResponse) : UMetadata :=
   let bm := brokerMap res.brokers
@@ -140,13 +152,9 @@ def clientMetadata (res : MResponse) : UMetadata :=
     topics := res.topics.map fun t =>
       { name := t.name, internal := t.internal, error := t.error
         partitions := t.partitions.map fun p =>
-          { topic := t.name, id := p.index, leader := lookupD bm p.leader UBroker.zero
-            replicas := p.replicas.map (lookupD bm · UBroker.zero)
-            isr := p.isr.map (lookupD bm · UBroker.zero), error := p.error } } }
-
-/-- conn.go makeBrokers: an id without a listed broker is reported as a placeholder carrying the id -/
-def makeBrokers (bm : List (Int × UBroker)) (ids : List Int) : List UBroker :=
-  ids.map fun id => match bm.lookup id with | some b => b | none => { UBroker.zero with id := id }
+          { topic := t.name, id := p.index, leader := brokerOrPlaceholder bm p.leader
+            replicas := makeBrokers bm p.replicas
+            isr := makeBrokers bm p.isr, error := p.error } } }
 
 /-- conn.go ReadPartitions: which topics are asked for — the arguments, else the connection's topic, else all
 (`none` = a NULL array on the wire) -/
@@ -158,8 +166,8 @@ def readPartitionsTopics (connTopic : String) (args : List String) : Option (Lis
 def concerns (connTopic : String) (t : MTopic) : Bool := t.error != 0 && (connTopic == "" || t.name == connTopic)
 
 def convPartition (bm : List (Int × UBroker)) (t : MTopic) (p : MPartition) : UPartition :=
-  { topic := t.name, id := p.index, leader := lookupD bm p.leader UBroker.zero
-    replicas := makeBrokers bm p.replicas, isr := makeBrokers bm p.isr, error := 0 }
+  { topic := t.name, id := p.index, leader := brokerOrPlaceholder bm p.leader
+    replicas := makeBrokers bm p.replicas, isr := makeBrokers bm p.isr, error := p.error }
 
 /-- conn.go readTopicMetadatav1/v6: a topic error is reported (and ends the call) only for the connection's own
 topic, or for any topic when the connection has none; `Except.error` carries the Kafka error code -/
@@ -174,7 +182,12 @@ def readPartitions (connTopic : String) (res : MResponse) : Except Int (List UPa
 partition → committed offset -/
 def consumerOffsetsRequest (topic : UTopic) : List Int := topic.partitions.map (·.id)
 
-def consumerOffsets (fetched : List UOFPart) : List (Int × Int) :=
-  goMap (fetched.map fun p => (p.partition, p.committed))
+/-- last step of ConsumerOffsets on the user-level OffsetFetch response of the topic: a group-level error fails the
+call; a partition with an error is left out and the first such error (its partition, its code) is returned together
+with the offsets of the others (after fix C19-D31; before, errors were dropped and failed partitions read −1) -/
+def consumerOffsets (groupErr : Int) (fetched : List UOFPart) : Except Int (List (Int × Int) × Option (Int × Int)) :=
+  if groupErr != 0 then .error groupErr
+  else .ok (goMap ((fetched.filter (·.error == 0)).map fun p => (p.partition, p.committed)),
+            (fetched.find? (·.error != 0)).map fun p => (p.partition, p.error))
 
 end KV.Mappings
